@@ -48,7 +48,10 @@ RULE_ADDED = (
               'th an error status. '
               ' '
               'Round 14: a quarter of the admin-tool environments export terminal / locale vari'
-              'ables. ')
+              'ables. '
+              ' '
+              'Round 15: a quarter of the cells on a device to be left alone get a late answer '
+              'among their first four exchanges. ')
 RULE = RULE + " " + RULE_ADDED.strip()
 ASSUMPTIONS = [
     "simulated devices (pv/simdev) trusted; operator input is scripted, an exhausted script "
